@@ -106,11 +106,17 @@ def readSparse : Nat → Nat → Nat → PtIter → List Nat → Option (List (N
 def fxScaled (scalar d : Int) : Int :=
   if scalar = 65536 then Fixed.fromI32 d else Fixed.mul (Fixed.fromI32 d) scalar
 
-def addAt (l : List Pt) (ix : Nat) (f : Pt → Pt) : List Pt :=
-  (List.range l.length).map fun k => if k = ix then f (l.getD k (0, 0)) else l.getD k (0, 0)
+/-- `if let Some(delta) = deltas.get_mut(ix) { *delta = f(*delta) }` -/
+def addAt : List Pt → Nat → (Pt → Pt) → List Pt
+  | [], _, _ => []
+  | p :: ps, 0, f => f p :: ps
+  | p :: ps, k + 1, f => p :: addAt ps k f
 
-def setAt (l : List Bool) (ix : Nat) : List Bool :=
-  (List.range l.length).map fun k => if k = ix then true else l.getD k false
+/-- `flags.get_mut(ix)` … `set_marker(HAS_DELTA)` -/
+def setAt : List Bool → Nat → List Bool
+  | [], _ => []
+  | _ :: bs, 0 => true :: bs
+  | b :: bs, k + 1 => b :: setAt bs k
 
 /-- `TupleVariation::accumulate_sparse_deltas(deltas, flags, scalar)` with `D = Fixed`, given the
 point-number data and the packed delta data of `point_numbers_and_packed_deltas` -/
